@@ -18,6 +18,17 @@ CHECKS = {
              "from documented constants (BETDAQ_CUTOFFS, betfairlightweight.metadata)",
         design="4/C17",
     ),
+    "C04": dict(
+        category="exploration",
+        technique="Hypothesis-generated whole simulation runs (stream files + action scripts) with a size-conservation "
+                  "invariant evaluated at every strategy callback",
+        text="Thousands (quick) to >10^5 (thorough) generated market histories x action scripts run through the real "
+             "FlumineSimulation; conservation, non-negativity, completion <=> zero remainder and matched-size monotonicity "
+             "checked at every strategy call. Held on everything explored.",
+        note="stream files are synthetic but rendered in the recorded-data format and parsed by the real listener/cache; "
+             "closing updates are preceded by a suspension",
+        design="4/C04",
+    ),
 }
 
 NOT_BUILT_REASON = "check not built yet (build in progress; see DESIGN.md section 4)"
